@@ -108,7 +108,15 @@ class EpollSelect(object):
       if event & (select.EPOLLOUT|select.EPOLLWRNORM|select.EPOLLWRBAND):
         retwl.append(self.fd_to_obj[fd])
       if event & (select.EPOLLERR|select.EPOLLHUP):
-        retxl.append(self.fd_to_obj[fd])
+        # As with select(): exceptional only if the caller asked, and reading
+        # or writing such a descriptor will not block
+        obj = self.fd_to_obj[fd]
+        if any(obj is x for x in xl):
+          retxl.append(obj)
+        if fd in self.lastrl_set and not any(obj is x for x in retrl):
+          retrl.append(obj)
+        if fd in self.lastwl_set and not any(obj is x for x in retwl):
+          retwl.append(obj)
 
     return (retrl, retwl, retxl)
 
